@@ -1,51 +1,21 @@
-/-! GENERATED by /verif/translators/c07skel from control/dns_control.go and dns_control_optimistic.go — do not edit. -/
+/-! SNAPSHOT of the output of /verif/translators/c07skel for control/dns_control*.go — regenerate with
+`go run main.go /repo/control`; checks/c07.py compares the tree under test with this file on every run. -/
 namespace DaeVerif.C07.Gen
 
-def steps_HandleWithResponseWriter_ : List String := [
-  "route-request",
-  "if-routed-to-reject",
-  "remove-cache-family",
-  "answer-empty",
-  "cache-lookup",
-  "background-refresh",
-  "reply-from-cache",
-  "singleflight(responseCacheKey)",
-  "resolve",
-  "cache-lookup",
-  "reply-from-cache",
-  "reply",
-  "reply-packet",
-  "internal-path"]
-
-def steps_handleWithResponseWriter_ : List String := [
-  "route-request",
-  "if-routed-to-reject",
-  "remove-cache-family",
-  "answer-empty",
-  "cache-lookup",
-  "background-refresh",
-  "reply-from-cache",
-  "dialSend(depth=0,upstream=upstream,key=responseCacheKey)"]
-
-def steps_dialSend : List String := [
-  "depth-guard(invokingDepth>=MaxDnsLookupDepth)",
-  "forward",
-  "question-check",
-  "route-response",
-  "case-accept",
-  "case-reject",
-  "empty-answer-section",
-  "reask(invokingDepth+1,nextUpstream)",
-  "case-accept",
-  "case-reject",
-  "store(responseCacheKey)",
-  "reply",
-  "reply-packet",
-  "store(responseCacheKey)",
-  "store(responseCacheKey)"]
-
-def steps_backgroundRefresh : List String := [
-  "if-routed-to-reject",
-  "dialSend(depth=0,upstream=upstream,key=cacheKey)"]
+def controllerFacts : List String := [
+  "HandleWithResponseWriter_: request routing, then the reject test, then the first cache lookup",
+  "HandleWithResponseWriter_: a rejected route is answered empty before any cache lookup",
+  "handleWithResponseWriter_: request routing, then the reject test, then the first cache lookup",
+  "handleWithResponseWriter_: a rejected route is answered empty before any cache lookup",
+  "HandleWithResponseWriter_: resolution is coalesced under the response cache key (scope included)",
+  "HandleWithResponseWriter_: cache lookup before the coalesced resolution",
+  "handleWithResponseWriter_: after a cache miss, dialSend at depth 0 with the routed upstream under the request's response cache key",
+  "dialSend: refuses when the depth has reached MaxDnsLookupDepth (>=)",
+  "dialSend: depth guard, forward, question check, response routing — in this order",
+  "dialSend: a response routed to reject loses its answer section",
+  "dialSend: a re-ask goes one level deeper, to the upstream the response routing selected, under the same cache key",
+  "dialSend: every store is under the cache key of the original request",
+  "dialSend: nothing is stored before the response is routed",
+  "backgroundRefresh: nothing for a rejected route; else dialSend at depth 0 with the upstream routed for the stale entry, under that entry's key"]
 
 end DaeVerif.C07.Gen
